@@ -396,7 +396,9 @@ func execAdapter(f []string) string {
 			param = strings.TrimSuffix(param, "c")
 		}
 		target, _ := strconv.Atoi(param)
-		err := iterator.SkipTo(ctx, ins[0], fmt.Sprintf("%03d", target))
+		// items are "kkk.t"; the target "kkk.0" is the smallest string of key k, so `>=` on strings is `>=` on keys and
+		// an item with tag 0 is *equal* to the target (a `>` instead of `>=` is then visible)
+		err := iterator.SkipTo(ctx, ins[0], fmt.Sprintf("%03d.0", target))
 		first := "nil"
 		if err != nil {
 			first = errTok(err)
@@ -741,6 +743,7 @@ func genAdapter(r *hx.Rand, st *hx.Stats) string {
 		cfg.maxLen = 8
 		scripts = []string{genScript(r, cfg)}
 	case "skipto":
+		cfg.tagRange = 2
 		scripts = []string{genScript(r, cfg)}
 		param = strconv.Itoa(r.Intn(8))
 		if r.Chance(1, 10) {
